@@ -18,7 +18,7 @@ from typing import Any
 
 import reactivex.operators as ops
 
-from ..common import UnitResult, case_rng, chunks, show
+from ..common import UnitResult, case_rng, chunks, show, strict
 from ..single import SUB_AT, cut_after_terminal, make_input, match_expected, run_single, show_timed
 from ..vlab import Lab, gen_timeline, show_timeline
 from . import _c15_time as T
@@ -43,7 +43,8 @@ REQUIRED = {"set:ops": len(OPSET), "set:clocks": 2, "set:shapes": 4,
             "delay_error_with_pending": {"quick": 20, "thorough": 400},
             "delay_zero": {"quick": 10, "thorough": 200},
             "same_instant_bursts": {"quick": 100, "thorough": 2000},
-            "dwm_coinciding_fires": {"quick": 20, "thorough": 400}}
+            "dwm_coinciding_fires": {"quick": 20, "thorough": 400},
+            "resubscriptions_checked": {"quick": 1500, "thorough": 30000}}
 DELAYS = [0, 0, 1, 4, 5, 5, 10, 10, 15, 20, 2.5]
 
 
@@ -324,6 +325,8 @@ def run_case(seed: int, idx: int, res: UnitResult) -> None:
         res.violation("C15:%s" % op, detail, {"seed": seed, "idx": idx})
     if why is None and op == "delay" and not case["hot"] and (P["shape"] != "abs" or P["d"] > 7) and idx % 2 == 0:
         second_subscription_delay(case, res, seed, idx, desc)
+    if why is None and op != "delay" and P.get("shape") != "abs" and idx % 3 == 0:
+        resubscription_case(case, res, seed, idx, desc)
 
 
 def second_subscription_delay(case: dict, res: UnitResult, seed: int, idx: int, desc: dict) -> None:
@@ -353,6 +356,68 @@ def second_subscription_delay(case: dict, res: UnitResult, seed: int, idx: int, 
     if why2 is not None:
         res.violation("C15:delay:second-subscription", {"why": why2, "case": desc, "second_subscribed_at": SUB_AT + off,
                                                         "accepted": [show_timed(a) for a in alts2[:3]], "observed": show_timed(second.timed())},
+                      {"seed": seed, "idx": idx})
+
+
+def resubscription_case(case: dict, res: UnitResult, seed: int, idx: int, desc: dict) -> None:
+    """The time-shifted observable is built ONCE, subscribed at SUB_AT and, long after that subscription is over, again at T2.
+    What the second subscriber sees must be what the only subscriber of a FRESHLY built observable sees when it subscribes
+    at T2 in a lab of its own (same cold source, same delay probes): no state of the first subscription may leak."""
+    from ..vlab import Lab
+    op, P = case["op"], case["P"]
+    T2 = SUB_AT + 400.0
+
+    def world(twice: bool) -> Any:
+        lab = Lab(case["clock"])
+        src = lab.cold("s", list(case["tl"]))
+        calls = [0]
+        if op == "delay_with_mapper":
+            T.arm(lab)
+
+            def mapper(x: Any) -> Any:
+                i = calls[0]
+                calls[0] += 1
+                return T.make_probe(lab, "d%d" % i, P["delays"][i % len(P["delays"])])
+            if P["sub_delay"] is not None:
+                o = src.pipe(ops.delay_with_mapper(T.make_probe(lab, "sd", P["sub_delay"]), mapper))
+            else:
+                o = src.pipe(ops.delay_with_mapper(mapper))
+        else:
+            o = build(case, lab, src)
+        first, second = lab.observer("first"), lab.observer("second")
+        if twice:
+            lab.at(SUB_AT, lambda: first.subscribe_to(o))
+            lab.at(T2 - 1.0, first.dispose)
+
+        def sub2() -> None:
+            calls[0] = 0
+            second.subscribe_to(o)
+        lab.at(T2, sub2)
+        lab.run()
+        return lab, second
+
+    labA, secondA = world(True)
+    labB, secondB = world(False)
+    if T.spun(labA) or T.spun(labB):
+        return
+
+    def conv(lab: Any, xs: list) -> list:
+        out = []
+        for (t, k, v) in xs:
+            if k == "N" and op == "timestamp":
+                v = (getattr(v, "value", None), T.clock_seconds(lab, getattr(v, "timestamp", None)))
+            elif k == "N" and op == "time_interval":
+                iv = getattr(v, "interval", None)
+                v = (getattr(v, "value", None), iv.total_seconds() if isinstance(iv, _dt.timedelta) else repr(iv))
+            out.append((t, k, v))
+        return out
+    a, b = conv(labA, secondA.timed()), conv(labB, secondB.timed())
+    res.count("resubscriptions_checked")
+    res.count("resubscription_notifications_compared", len(b))
+    same = len(a) == len(b) and all(x[0] == y[0] and x[1] == y[1] and (x[1] == "E" or strict(x[2]) == strict(y[2])) for x, y in zip(a, b))
+    if not same:
+        res.violation("C15:%s:second-subscription" % op, {"why": "the second subscriber of a re-used observable differs from the only subscriber of a fresh one",
+                                                          "case": desc, "second_subscribed_at": T2, "fresh": show_timed(b), "reused": show_timed(a)},
                       {"seed": seed, "idx": idx})
 
 
